@@ -100,4 +100,21 @@ PlainIsVerbatim(s, qcol) == (\A i \in 1..Len(s) : s[i] # LF /\ s[i] # BSL) => De
 SingleLineLayoutFree(s) == (\A i \in 1..Len(s) : s[i] # LF) => DecodeDQ(s, 1) = DecodeDQ(s, 40)
 \* the white-space rules touch nothing in a string without line break
 NoBreakNoStrip(s, qcol) == (\A i \in 1..Len(s) : s[i] # LF) => Strip(s, qcol) = s
+
+\* ---- menus shared by the generators of C08 and C10 ----
+\* comment bodies: empty, starting / ending with the characters of the markers, holding the other marker, quotes,
+\* braces, semicolons, a line break, a non-ASCII character (a block comment ends at the first */ after its /*, a line
+\* comment at the line feed; nothing inside means anything)
+BlockBodies == << S2C(" c "), << >>, S2C("/"), S2C("*"), S2C("/ note "), S2C(" x /"), S2C(" x *"), S2C("/*"), S2C("//"), S2C(" // "), S2C(" } ; { \" ' "),
+                  S2C(" ") \o <<LF>> \o S2C(" "), S2C(" ") \o <<233>> \o S2C(" "), S2C("**"), S2C("/ /* /") >>
+LineBodies == << S2C(" c"), << >>, S2C("/"), S2C("*"), S2C("/*"), S2C(" */"), S2C("*/"), S2C(" \" ' { ; }"), S2C(" // x"), S2C(" /* ") >>
+CmtBlock(b) == S2C("/*") \o b \o S2C("*/")
+CmtLine(b) == S2C("//") \o b \o <<LF>>
+
+\* runs of two and three elements over the four escapes and the plain characters that look like one when a backslash
+\* happens to stand before them (n, t, r, a quote-free word): \\ directly followed by n is a backslash and an n
+EscEl == << <<BSL, BSL>>, <<BSL, 110>>, <<BSL, 116>>, <<BSL, DQ>>, S2C("n"), S2C("t"), S2C("r"), S2C("x y") >>
+EscRuns2 == {EscEl[a] \o EscEl[b] : a \in 1..Len(EscEl), b \in 1..Len(EscEl)}
+EscRuns3 == {EscEl[a] \o EscEl[b] \o EscEl[c] : a \in 1..Len(EscEl), b \in 1..Len(EscEl), c \in 1..Len(EscEl)}
+EscRuns == EscRuns2 \cup EscRuns3
 =============================================================================
